@@ -15,13 +15,14 @@ class AllocModel:
         self.f = facts
         self.bodies = [b for b in facts.bodies if b.self_ty == ALLOC]
         self.closures = [b for b in facts.bodies if b.kind == "Closure" and any(b.path.startswith(p.path + "::") for p in self.bodies)]
-        zg = [b for b in facts.bodies if b.self_ty == ZGEN and b.argc == 1 and b.ltype.get(1, "").startswith("&mut")]
+        allb = getattr(facts, "all_bodies", facts.bodies)
+        zg = [b for b in allb if b.self_ty == ZGEN and b.argc == 1 and b.ltype.get(1, "").startswith("&mut")]
         # role discovery by signature: &mut self -> ()  is "die", &mut self -> Generation is "raise"
         self.die = {b.path for b in zg if b.ltype[0] == "()"}
         self.raise_ = {b.path for b in zg if b.ltype[0] == "world::entity::Generation"}
         # EntityCache methods that grow the free list
         self.growers = set()
-        for b in facts.bodies:
+        for b in allb:
             if b.self_ty != CACHE:
                 continue
             for bb, t in b.calls():
